@@ -1,0 +1,39 @@
+//go:build verif
+
+package equal
+
+// Contracts for the equal plugin (C02, C01, C09), read by /verif's gvc.
+// Comment-only file; see /verif/DESIGN.md appendix E for the clause language.
+
+//@ func canEqual(tt types.Type) (r bool)
+//@ abstract: pred flat
+
+//@ func equalMethodInputParam(typ *types.Named) (r *types.Type)
+//@ abstract: option-type
+
+//@ func (g *gen) field(thisField, thatField string, fieldType types.Type) (s string, err error)
+//@ abstract: expr classes=Cmp,Paren,Call
+//@ param thisField: classes=Primary,Star,Amp
+//@ param thatField: sameclass=thisField
+
+//@ func (g *gen) genStatement(typ types.Type, this, that string) (err error)
+//@ abstract: stmt returns
+//@ param this: classes=Ident,Star
+//@ param that: sameclass=this
+
+//@ func (g *gen) genFunc(typs []types.Type) (err error)
+//@ param typs: len=2 identical
+//@ emits: decls
+//@ serves: equal len=2 typs=typs
+//@ o-sig: (this, that $typs[0]) (r bool)
+//@ o-pure
+//@ o-ensures: [equal] r <==> EqTop(typs0, this, that)
+
+//@ func (g *gen) genCurriedFunc(typ types.Type) (err error)
+
+//@ func (g *gen) Generate(typs []types.Type) (err error)
+//@ param typs: len=1,2 identical
+
+//@ func (g *gen) Add(name string, typs []types.Type) (r string, err error)
+//@ param typs: len=0,1,2,3
+//@ param name: classes=Ident
